@@ -19,9 +19,10 @@ func init() {
 			"(R3) the global -1 exists only in concludeMicroTask, which is reached only from runMicroTask's deferred closure and from the once-guarded done closure, and it also releases the per-module count and re-evaluates stop completion (shared with C05-R2); " +
 			"(R4) the limit setter enforces the minimum of 2 (finite-valuation propagation) and the blocking variants return the function's error. " +
 			"(R5) reporting an error never blocks: ModuleError.Report hands the report to the reporting channel in a non-blocking select (the recovery handlers call it before they conclude the microtask). " +
+			"(R6) every clearance request is made with the caller's delay when it was tested positive and otherwise with the default constant of that same priority (table: medium -> defaultMediumPriorityMaxDelay, low -> defaultLowPriorityMaxDelay); " +
 			"NOT decided: the concurrency bound under real races between the scheduler and finishing tasks, exactly-once execution over all schedules.",
 		Rules: []ruleFn{c15R1, c15R2, c15R3, c15R4,
-			c15R5},
+			c15R5, c15R6},
 	})
 }
 
